@@ -436,7 +436,10 @@ class IterNode(tp.Generic[FrameOrSeries]):
 
         if self._apply_type is IterNodeApplyType.SERIES_ITEMS:
             if isinstance(self._container, Frame) and kwargs['axis'] == 0:
-                index_constructor = self._container._columns.from_labels
+                columns = self._container._columns
+                # the labels of a Series are static: a grow-only columns index gives its immutable class
+                columns_cls = columns.__class__ if columns.STATIC else columns._IMMUTABLE_CONSTRUCTOR
+                index_constructor = columns_cls.from_labels
             else:
                 index_constructor = self._container._index.from_labels
             # always return a Series
